@@ -738,10 +738,13 @@ impl rustc_driver::Callbacks for Cb {
                 },
                 _ => true,
             };
-            if generic || !has_body {
+            if generic {
                 let _ = write!(o, ",\"generic\":true");
+            }
+            if !has_body {
+                let _ = write!(o, ",\"nobody\":true");
             } else {
-                let te = TypingEnv::fully_monomorphized();
+                let te = if generic { TypingEnv::post_analysis(tcx, did) } else { TypingEnv::fully_monomorphized() };
                 let r = std::panic::catch_unwind(std::panic::AssertUnwindSafe(|| {
                     if matches!(kind, DefKind::Static { .. }) {
                         match tcx.eval_static_initializer(did) {
